@@ -291,6 +291,13 @@ func c06exec(x *schedx.Exec, d *c06data, ctx context.Context, r *c06rec) {
 		}
 		d.cancels[op.target]()
 	}
+	if op.kind != "S" && op.kind != "C" && op.kind != "PK" {
+		// A blocked reader woken by another thread's step runs concurrently with it up to here: park before
+		// touching the shared harness records, so that the order of completions is the scheduler's choice.
+		if t := schedx.Current(); t != nil {
+			t.Point("ret")
+		}
+	}
 	r.done, r.tDone = true, x.Now()
 	d.seq++
 	r.seq = d.seq
